@@ -1,6 +1,7 @@
 import HdModel.Lemmas.PoolFrame
 import HdModel.Model.PoolCompact
 import HdModel.Lemmas.PoolOrigin
+import HdModel.Props.Builder
 /-! # C15 — the pool keeps at most the configured number of idle connections per origin
 
 Theorem about the pool model `Hd.Pool` (mirror of `client/pool`): in **every** state reachable by
